@@ -7,7 +7,7 @@ P=$(readlink -f "$1"); shift
 WT=$(mktemp -d /tmp/seedtest-wt.XXXXXX)
 git -C /repo worktree add -q --detach $WT HEAD || exit 1
 export VERIF_EVIDENCE_DIR=$(mktemp -d /tmp/seedtest-ev.XXXXXX)
-trap 'git -C /repo worktree remove --force $WT 2>/dev/null; rm -rf "$VERIF_EVIDENCE_DIR" $WT' EXIT
+trap 'rm -rf "$VERIF_ROOT/.work/mod-$(echo "$WT" | md5sum | cut -c1-10)"; git -C /repo worktree remove --force $WT 2>/dev/null; rm -rf "$VERIF_EVIDENCE_DIR" $WT' EXIT
 (cd $WT && (git apply "$P" || git apply -3 "$P")) || { echo "patch does not apply"; exit 1; }
 export REPO_ROOT=$WT
 for id in "$@"; do
